@@ -80,6 +80,19 @@ def match_nested_sum(t, depth):
     return cur, lvs
 
 
+def full_range(rng, arrays, axis_names) -> bool:
+    """the loop range covers a whole axis: range(item(shape(A), ax)) with A one of the (equally shaped) arrays and ax
+    naming the axis from the front or from the back (2-D point arrays: frequency 0/-2, direction 1/-1)"""
+    if fname(rng) != "range" or len(rng.args) != 1:
+        return False
+    n = rng.args[0]
+    if fname(n) == "len" and axis_names[0] == 0:
+        return n.args[0] in arrays
+    if fname(n) != "item" or fname(n.args[0]) != "shape":
+        return False
+    return n.args[0].args[0] in arrays and n.args[1] in [sp.Integer(a) for a in axis_names]
+
+
 def direction_rules(ctx):
     """R02.1-R02.3: bin widths, e, a1..b2 of the 2-D class (shared with C03/C12, which build on them)"""
     p = ctx.program
@@ -183,10 +196,13 @@ def run(ctx):
     if m is None:
         ctx.unsure("R02.5", "numba_integrate_spectral_data", "not a double accumulation", f.loc(), derived=r)
     else:
-        X, ((fv, _), (dv, _)) = m
+        X, ((fv, fr), (dv, dr)) = m
         ref = op("item", data, sp.Tuple(fv, dv)) * op("item", fstep, fv) * op("item", dstep, dv)
         ctx.equiv("R02.5", "numba_integrate_spectral_data", X, ref, f.loc(),
                   "summand == data[f,d]*frequency_step[f]*direction_step[d]", interp=it2)
+        ctx.expect(full_range(fr, (data,), (0, -2)) and full_range(dr, (data,), (1, -1)), "R02.5",
+                   "numba_integrate_spectral_data[all bins]", "the sum covers every frequency and direction bin", f.loc(),
+                   derived=sp.Tuple(fr, dr))
     f = p.get_function("wavespectra.operations.numba_directionally_integrate_spectral_data")
     r = T.to_term(it2.call_function(f, [data, grid], {}, None))
     ok = None
@@ -194,10 +210,14 @@ def run(ctx):
         fv = r.args[3]
         m = match_nested_sum(r.args[2], 1)
         if m is not None and r.args[1] == fv:
-            X, ((dv, _),) = m
+            X, ((dv, dr),) = m
             ref = op("item", data, sp.Tuple(fv, dv)) * op("item", dstep, dv)
             ctx.equiv("R02.5", "numba_directionally_integrate_spectral_data", X, ref, f.loc(),
                       "out[f] == sum_d data[f,d]*direction_step[d]", interp=it2)
+            ctx.expect(full_range(dr, (data,), (1, -1)) and full_range(r.args[4] if len(r.args) > 4 else r.args[-1], (data,), (0, -2)),
+                       "R02.5", "numba_directionally_integrate_spectral_data[all bins]",
+                       "every frequency is tabulated and the sum covers every direction bin", f.loc(),
+                       derived=sp.Tuple(dr, r.args[-1]))
             ok = True
     if ok is None:
         ctx.unsure("R02.5", "numba_directionally_integrate_spectral_data", "not a per-frequency accumulation", f.loc(), derived=r)
